@@ -18,6 +18,14 @@ Oracles / keys
   noise/..       y_err = s  <=>  y_cov = diag(s^2)
   queryform/..   scalar / list / (m,d) array / single d-vector give the rows of the (m,d) result
   predict/..     the library raised on an in-domain input
+  crosscov/..    K_qx = kernel(q, x, theta) and K_qq = kernel(q, q, theta) of the regressor's kernel object equal, entry by entry, the
+                 documented formula that K_xx follows (crosscov/<family>/K_qx-vs-formula, ../K_qq-vs-formula; tolerance 64 eps (1 + alpha)
+                 sum A^2: no conditioning involved), and the row of K_qx at a query point that IS a training point equals the row of
+                 build_covariance off the diagonal (../K_qx-row-at-training-point-vs-K_xx-row)
+  (noise-position lattice) 14 sums with WhiteNoise / HeteroscedasticNoise first, in the middle, last, twice, nested, inside and around a
+                 change-point: all oracles above (a signal kernel must be evaluated with ITS OWN part of the hyper-parameter vector)
+  regime/<any of the above>   hyper-parameters outside the default bounds: ln alpha in {-6, -3, 8, 9.25, 10, 12}, length-scales 1e-3 .. 1e3 data
+                 ranges, ln A = +-10 (and alternating), ln sigma in {-12, 4}, and three combinations, for every kernel that has the parameter kind
   far/<any of the above>   the same oracles on the far-location / unit lattice: x -> xs (x + shift), y -> ys y with shift up to
                  +-1e6 length-scales and xs, ys in 1e-6 .. 1e6, hyper-parameters carried along, reference on the same floats
   history/..     (evaluator gphist) every call history of <= depth actions on ONE regressor over {set_hyperparameters with the
@@ -809,6 +817,13 @@ def run(ck):
         "level patterns} x {no noise, y_err, diagonal y_cov, full y_cov} x {Constant, Linear, Quadratic mean}; per element 4 query points (a training "
         "point, interior, offset, far extrapolation) in every accepted query form, and all n! orders of the training set (n<=4; a 6-entry menu above). "
         "A lattice point is distinct by (kernel, d, n, design, noise, mean); condition-number decades reached are counted too. "
+        "Noise-position lattice: %d sums with a WhiteNoise / HeteroscedasticNoise term first, in the middle, last, twice, built with + and with the constructor (nested), inside "
+        "and around a change-point, each on a d = 1 and a d >= 2 point set (thorough: 8 point sets x 3 patterns) through all oracles above. "
+        "Kernel-level oracle on every gp case (keys crosscov/..): kernel(q, x, theta) and kernel(q, q, theta) of the regressor's kernel object equal entry by entry the documented "
+        "formula that K_xx follows, and the K_qx row of a query point that is a training point equals the build_covariance row off the diagonal. "
+        "Regime lattice (keys regime/..): {ln alpha = -6, -3, 8, 9.25, 10, 12; length-scale = 1e-3, 1e-2, 30, 1e3 data ranges; ln A = -10, +10, alternating; ln sigma = -12, 4; "
+        "(alpha 12, ls 30), (alpha 10, A -10), (alpha -6, ls 1e-2, A alternating)} x {every kernel of the lists that has the parameter kind} on a rotating point set (thorough: three), "
+        "all outside the default optimisation bounds; distinct by (kernel, d, regime, noise, mean). "
         "Far-location / unit lattice (keys far/..): the same elements (one (n,d,design,pattern) per kernel in the quick tier, three in the thorough tier) with "
         "x -> xs*(x + shift), y -> ys*y, shift in {0, +-1e3, +-1e6} mid-level length-scales, xs, ys in {1e-6, [1e-3,] 1, [1e3,] 1e6}, the hyper-parameters, data errors and mean "
         "coefficients carried along (same problem in other units at another location); reference and tolerances computed on the transformed floats; quick: "
@@ -819,7 +834,12 @@ def run(ck):
         "configurations (quick: a seed-rotated window of 6); after every prediction and in an audit of all three calls at the end of every history the results must equal (bit for bit, else 1e-12 of the "
         "largest entry) those of a freshly constructed regressor with the same data and the current hyper-parameters, and x, y, y_err / y_cov, q and every theta array "
         "handed over must be byte-identical to what the caller wrote; a history tag is (call, how the current hyper-parameters were given, which block changed, step/audit, kernel family, mean, noise)."
+        % len(NOISE_POS_KERNELS)
     )
+    ck.assume("regime lattice: the prediction tolerances are multiplied by (1 + alpha) because the entries of K_xx and K_qx themselves carry (1 + alpha) eps relative rounding "
+              "((1 + Z/alpha)^-alpha w.r.t. the rounding of 1 + Z/alpha); regimes whose K_xx + S has cond > 1e10 (amplitude e^10 with a long length-scale and no noise) are skipped and counted; "
+              "the kernel-level oracle crosscov/.. is not affected by conditioning and is evaluated for all of them")
+    ck.assume("the diagonal-jitter window [0, 1e-10 K_ii] is widened by 64 eps (K_ii + sqrt((sum A^2 + max sigma^2) K_ii)): a change-point weight 1 - f formed by subtraction carries eps absolutely")
     ck.assume("call histories: 'the hyper-parameter vector' is the one last GIVEN to the constructor / set_hyperparameters; the in-place overwrite of the caller's array is always followed "
               "by set_hyperparameters with that array before the next prediction (an array modified behind the regressor's back is outside the claim); histories are bounded by the stated "
               "depth, n <= 5, d <= 3 and one hyper-parameter pattern per configuration (two in the thorough tier); the fresh regressor itself is covered by the closed-form lattice")
